@@ -1,1 +1,146 @@
 import Goflow.Pipe
+import Proofs.C05
+import Proofs.Lemmas.Netflow
+/-!
+  C07 — One flow message per flow record, in order; none lost, duplicated or invented.
+-/
+namespace Goflow.C07
+open Goflow Goflow.Producer
+
+/-- NetFlow v5: exactly one message per decoded record, in record order -/
+theorem produce_order_v5 (p : V5.Packet) :
+    processLegacy p = p.records.map (fun r =>
+      { convertLegacyRecord (p.header.unixSecs * 1000000000 + p.header.unixNSecs) p.header.sysUptime r with
+        sequenceNum := p.header.flowSequence, samplingRate := p.header.samplingInterval % 16384 }) := by
+  simp [processLegacy, List.map_map, Function.comp_def]
+
+theorem produce_length_v5 (p : V5.Packet) : (processLegacy p).length = p.records.length := by
+  simp [processLegacy]
+
+/-- NetFlow v5, any bytes: never more messages than complete 48-byte records lie behind the 24-byte header -/
+theorem count_any_bytes_v5 (b : Bytes) (p : V5.Packet) (h : V5.decodeMessageVersion b = .ok p) :
+    24 + 48 * (processLegacy p).length ≤ b.length := by
+  rw [produce_length_v5]
+  exact (C05.records_le_present b p h).1
+
+private theorem convertRecords_length (cfg : Option Config) (v bt up : Nat) (rs : List Netflow.DataRecord) (ms : List FlowMsg)
+    (h : convertRecords cfg v bt up rs = .ok ms) : ms.length = rs.length := by
+  induction rs generalizing ms with
+  | nil => simp [convertRecords] at h; subst h; rfl
+  | cons r rs ih =>
+    unfold convertRecords at h
+    split at h
+    · cases h
+    · split at h
+      · cases h
+      · rename_i ms' hms
+        cases h
+        simp [ih _ hms]
+
+/-- NetFlow v9 / IPFIX: when production succeeds there is exactly one message per data record of the
+    data sets (templates, options templates, options data and raw sets contribute none) -/
+theorem produce_length_netflow (cfg : Option Config) (p : Netflow.Packet) (rates : Rates)
+    (h : (processNetflow cfg p rates).err = none) :
+    (processNetflow cfg p rates).msgs.length = (dataRecordsOf p.flowSets).length := by
+  unfold processNetflow at h ⊢
+  cases hm : convertRecords cfg p.version p.baseTime p.uptime (dataRecordsOf p.flowSets) with
+  | error e => simp [hm] at h
+  | ok msgs =>
+    cases hf : searchSamplingRate (optionRecordsOf p.flowSets) with
+    | error e => simp [hm, hf] at h
+    | ok found =>
+      simp only [List.length_map]
+      exact convertRecords_length _ _ _ _ _ _ hm
+
+/-- v9 / IPFIX, any bytes: a data set never decodes to more records than complete records are
+    physically present in its payload (record size > 0 is enforced by the decoder) -/
+theorem count_any_bytes_netflow (fs : List Netflow.Field) (fuel : Nat) (b : Bytes) (rs : List Netflow.DataRecord)
+    (h : Netflow.decodeDataSet fs fuel b = .ok rs) :
+    0 < Netflow.templateSize fs ∧ rs.length * Netflow.templateSize fs ≤ b.length := by
+  unfold Netflow.decodeDataSet at h
+  split at h
+  · cases h
+  · rename_i hz
+    exact ⟨Nat.pos_of_ne_zero hz, Netflow.decodeDataSetLoop_bound _ _ _ _ h⟩
+
+private theorem convertSamples_length (cfg : Option Config) (ss : List Sflow.Sample) (ms : List FlowMsg)
+    (h : convertSamples cfg ss = .ok ms) :
+    ms.length = (ss.filter fun s => match s with | .flow .. => true | .expFlow .. => true | _ => false).length := by
+  induction ss generalizing ms with
+  | nil => simp [convertSamples] at h; subst h; rfl
+  | cons s ss ih =>
+    unfold convertSamples at h
+    cases s with
+    | flow hd vals recs =>
+      simp only [convertSample] at h
+      generalize applyRecords cfg recs _ = r at h
+      cases r with
+      | error e => simp at h
+      | ok m =>
+        cases hss : convertSamples cfg ss with
+        | error e => simp [hss] at h
+        | ok ms' => simp [hss] at h; subst h; simp [ih _ hss]
+    | expFlow hd vals recs =>
+      simp only [convertSample] at h
+      generalize applyRecords cfg recs _ = r at h
+      cases r with
+      | error e => simp at h
+      | ok m =>
+        cases hss : convertSamples cfg ss with
+        | error e => simp [hss] at h
+        | ok ms' => simp [hss] at h; subst h; simp [ih _ hss]
+    | counter hd c recs => simp only [convertSample] at h; simp [ih _ h]
+    | drop hd vals recs => simp only [convertSample] at h; simp [ih _ h]
+    | none => simp only [convertSample] at h; simp [ih _ h]
+
+/-- sFlow: one message per flow / expanded flow sample; counter samples, drop samples and empty
+    slots contribute none -/
+theorem produce_length_sflow (cfg : Option Config) (p : Sflow.Packet) (ms : List FlowMsg)
+    (h : processSflow cfg p = .ok ms) :
+    ms.length = (p.samples.filter fun s => match s with | .flow .. => true | .expFlow .. => true | _ => false).length := by
+  unfold processSflow at h
+  cases hms : convertSamples cfg p.samples with
+  | error e => simp [hms] at h
+  | ok ms' =>
+    simp [hms] at h
+    subst h
+    simp [convertSamples_length _ _ _ hms]
+
+/-- the pipe emits nothing when the datagram fails to decode or to convert (no partial, no invented output) -/
+theorem no_output_on_fatal_error (cfg : Config) (st : Pipe.State) (src : Pipe.Src) (recv : Nat) (d : Bytes)
+    (e : Err) (he : (Pipe.netflowPipe cfg st src recv d).err = some e) (hne : e ≠ .tnf) :
+    (Pipe.netflowPipe cfg st src recv d).msgs = [] := by
+  revert he
+  unfold Pipe.netflowPipe
+  simp only
+  cases hrd : readU 2 d with
+  | error e' => intro _; rfl
+  | ok vb =>
+    obtain ⟨version, b⟩ := vb
+    simp only
+    by_cases h5 : version = 5
+    · simp only [h5, if_true]
+      cases V5.decodeMessage b with
+      | error e' => intro _; rfl
+      | ok p => intro he; simp at he
+    · simp only [h5, if_false]
+      by_cases h910 : version = 9 ∨ version = 10
+      · simp only [h910, if_true]
+        generalize (if version = 9 then Netflow.decodeMessageNetFlow (st.templatesOf src) b
+          else Netflow.decodeMessageIPFIX (st.templatesOf src) b) = o
+        cases ho : o.err with
+        | some e' => intro _; rfl
+        | none =>
+          simp only
+          generalize processNetflow _ _ _ = r
+          cases hr : r.err with
+          | some e' => intro _; rfl
+          | none =>
+            simp only
+            intro he
+            split at he
+            · simp at he; exact absurd he.symm hne
+            · simp at he
+      · simp [h910]
+
+end Goflow.C07
